@@ -303,11 +303,13 @@ Section Iso.
 
   Lemma step_HC warn st r st' : step warn st r = Ok st' -> HC (fst st') -> HC (fst st).
   Proof.
-    destruct r as [e|attrs f m]; cbn [Model.step].
+    destruct r as [e|attrs f m|attrs e]; cbn [Model.step].
     - destruct warn; [|discriminate]. intros H; injection H as <-. auto.
     - destruct (negb (is_image attrs)); [intros H; injection H as <-; auto|].
       destruct (add_result _ _ _ _ _) as [rs'|e] eqn:E; cbn [bind]; [|discriminate].
       intros H; injection H as <-. cbn [fst]. eapply add_result_HC; exact E.
+    - destruct (negb (is_image attrs)); [intros H; injection H as <-; auto|].
+      destruct warn; [|discriminate]. intros H; injection H as <-. auto.
   Qed.
 
   Lemma run_HC warn l : forall st st', run warn st l = Ok st' -> HC (fst st') -> HC (fst st).
@@ -335,7 +337,7 @@ Section Iso.
     - injection Hrun as <-. exists rs2. split; [reflexivity | exact Hp].
     - destruct (step warn st1 r) as [sta|e] eqn:E; cbn [bind] in Hrun; [|discriminate].
       pose proof (run_HC _ _ _ _ Hrun Hhc) as Hhca. fold (drop_files p l).
-      destruct r as [e|attrs f m]; cbn [keep_rd Model.step] in *.
+      destruct r as [e|attrs f m|attrs e]; cbn [keep_rd Model.step] in *.
       + destruct warn; [|discriminate]. injection E as <-. cbn [fst snd] in *.
         cbn [Model.run Model.step bind fst snd]. apply (IH (fst st1, S (snd st1)) st1' rs2 Hrun Hne Hk Hhc Hp).
       + destruct (is_image attrs) eqn:Ei; cbn [negb orb] in *.
@@ -351,6 +353,9 @@ Section Iso.
           -- apply (IH (rsa, snd st1) st1' rs2 Hrun Hnea Hka Hhc). cbn [fst].
              rewrite (add_result_drop _ _ _ _ _ Ep Ea). exact Hp.
         * injection E as <-. cbn [Model.run Model.step fst snd]. rewrite Ei. cbn [negb bind].
+          apply (IH (fst st1, S (snd st1)) st1' rs2 Hrun Hne Hk Hhc Hp).
+      + cbn [Model.run Model.step fst snd]. revert E.
+        destruct (negb (is_image attrs)); [|destruct warn; [|discriminate]]; intros E; injection E as <-; cbn [bind fst snd] in *;
           apply (IH (fst st1, S (snd st1)) st1' rs2 Hrun Hne Hk Hhc Hp).
   Qed.
 
@@ -445,11 +450,12 @@ Section Iso.
   Proof.
     induction l as [|r l IH]; [reflexivity|].
     pose proof (filter_length_le' (keep_rd p) l) as Hle. fold (drop_files p l) in Hle.
-    destruct r as [e|attrs f m]; cbn [imgs drop_files filter keep_rd length]; fold (drop_files p l).
+    destruct r as [e|attrs f m|attrs e]; cbn [imgs drop_files filter keep_rd length]; fold (drop_files p l).
     - rewrite IH. lia.
     - destruct (is_image attrs); cbn [negb orb map fst filter length].
       + destruct (p f); cbn [negb length]; rewrite IH; lia.
       + rewrite IH. lia.
+    - rewrite IH. lia.
   Qed.
 
   Lemma n_refused_dropped warn (l : list (rd F)) gs w :
